@@ -248,6 +248,8 @@ class FakeProc:
     def __init__(self, real, returncode, truncate):
         out, err = real.communicate()
         self._out = (out or b"")[: (len(out or b"") // 2) if truncate else None]
+        if truncate == "all":
+            self._out = b""
         self.returncode = returncode
         self.pid = real.pid
         self.args = real.args
@@ -451,7 +453,7 @@ class SimFS:
         name = os.path.basename(argv[0]) if isinstance(argv, (list, tuple)) and argv else "sh"
         if isinstance(argv, (list, tuple)) and len(argv) > 1 and name == "git":
             name = "git-" + str(argv[1])
-        f = self.event("spawn", name, defer=("helper_killed", "helper_status2"))
+        f = self.event("spawn", name, defer=("helper_killed", "helper_status2", "helper_silent_ok"))
         if self.dead:
             raise SimKill()
         real = _real_popen(argv, *a, **kw)
@@ -459,6 +461,11 @@ class SimFS:
             return FakeProc(real, -9, truncate=True)
         if f == "helper_status2":
             return FakeProc(real, 2, truncate=True)
+        if f == "helper_silent_ok":
+            # (not in LEGAL: a helper that prints nothing and still reports status 0 is not a *failed step* nbdime could
+            # notice - an empty merge result is legitimate - so the property cannot demand anything of it; kept only
+            # for replaying the experiment described in DESIGN.md section 15)
+            return FakeProc(real, 0, truncate="all")
         return real
 
     def install(self):
